@@ -396,7 +396,9 @@ pub fn run(ctx: &mut Ctx) {
     ctx.rule = "Generated: 1-3 struct definitions (nesting depth <= 3) with 1-6 members over {half,int,uint,float,double} x {scalar,2,3,4-vector}, enums, nested structs and arrays (1-4) of those, used as element type of StructuredBuffer / RWStructuredBuffer / (RW)ByteAddressBuffer Load<T>/Store<T> / (RW)BufferAddress Load<T>/Store, compiled with layout validation on. Non-trivial = the struct contains a 2/3/4-vector (Metal alignment exceeds HLSL alignment) or a nested struct/array-of-struct with tail padding. Distinct = hash of the source text.".into();
     ctx.assumptions.push("trusted: the two layout calculators in harness/src/c19.rs (HLSL structured-buffer: scalar-aligned members, struct padded to largest member alignment, array stride = padded element size; Metal: vector size = alignment = scalar x next power of two, struct padded to alignment)".into());
     ctx.assumptions.push("half is 2 bytes and double 8 bytes on both sides, as the property's rule set and the checker assume; Metal has no double, such cases are labelled".into());
-    ctx.replay_tier(&check_record);
+    if !ctx.replay_tier(&check_record) {
+        return;
+    }
     ctx.run_prop("random_structs", ctx.tier.pick(40_000, 1_000_000), case_strategy, case_json, check_record);
     ctx.require_label("accepted", 50);
     ctx.require_label("rejected", 50);
